@@ -156,6 +156,48 @@ def r25_4(ctx, rep):
                  "a literal operand / start / value item is written through a lossy conversion, so the document no longer mirrors the flat model's literal")
 
 
+@SPEC.rule(
+    "R25.5",
+    "the document is generated from the tree that is passed in, on every call: every path of xml.generator.generate() to a return "
+    "passes flatten(...) and the walk of the flat tree, what is returned is built from that walk's result, and generate() neither "
+    "reads nor writes a module-level container (a result kept across calls is served for a tree that was edited in the meantime "
+    "or for a new tree that happens to reuse the old one's id())",
+)
+def r25_5(ctx, rep):
+    from ..cfg import CFG
+    R = "R25.5"
+    fn = ctx.func(XML, "generate", R)
+    site = XML + ":generate"
+    cfg = CFG(fn, R)
+    flat = {x.id for x in cfg.stmts() if any(is_name(c.func, "flatten") for c in calls(x.ast))}
+    walk = {x.id for x in cfg.stmts() if any(isinstance(c.func, ast.Attribute) and c.func.attr == "walk" for c in calls(x.ast))}
+    rets = [x for x in cfg.stmts() if isinstance(x.ast, ast.Return)]
+    if not flat or not walk or not rets:
+        raise MechanismMissing(R, "generate() no longer flattens / walks / returns")
+    for what, nodes in (("flatten", flat), ("walk of the flat tree", walk)):
+        bad = None
+        for r in rets:
+            bad = bad or cfg.must_pass(cfg.entry, r.id, nodes)
+        rep.ob(R, site, "every return passes %s" % what, bad is None,
+               "generate() can return without %s: the returned document does not come from the tree that was passed in" % what,
+               path=cfg.describe(bad) if bad else "")
+    no_cross_call_state(ctx, rep, R, XML, "generate")
+
+
+def no_cross_call_state(ctx, rep, R, rel, fname):
+    """`fname` of module `rel` neither reads nor writes a module-level container and is not wrapped in a caching decorator"""
+    fn = ctx.func(rel, fname, R)
+    site = "%s:%s" % (rel, fname)
+    mod = ctx.module(rel, R)
+    state = {t.id for st in mod.body if isinstance(st, (ast.Assign, ast.AnnAssign)) for t in (st.targets if isinstance(st, ast.Assign) else [st.target])
+             if isinstance(t, ast.Name) and isinstance(st.value, (ast.Dict, ast.List, ast.Set, ast.Call)) and (
+                 not isinstance(st.value, ast.Call) or (call_name(st.value) or "").split(".")[-1] in ("dict", "list", "set", "OrderedDict", "defaultdict", "WeakValueDictionary", "lru_cache"))}
+    used = sorted({n.id for n in ast.walk(fn) if isinstance(n, ast.Name) and n.id in state})
+    deco = [norm(d) for d in fn.decorator_list if "cache" in norm(d)]
+    rep.ob(R, site, "no result kept across calls", not used and not deco,
+           "generate() uses the module-level container(s) %s / decorator %s: a document produced for one tree can be returned for another" % (used, deco))
+
+
 # -- seeded variants ---------------------------------------------------------
 from ._mut import replace_in_func  # noqa: E402
 
@@ -219,3 +261,14 @@ def _m_lit(mod):
         return False
 
     return mod if replace_in_func(mod, "XmlGenerator.exitPrimary", edit) else None
+
+
+@SPEC.mutant("generated documents memoised by id(tree)", XML, "R25.5", "no result kept")
+def _m_memo(mod):
+    for i, st in enumerate(mod.body):
+        if isinstance(st, ast.FunctionDef) and st.name == "generate":
+            mod.body.insert(i, ast.parse("_generated = {}").body[0])
+            st.body.insert(1 if isinstance(st.body[0], ast.Expr) else 0, ast.parse(
+                "if (id(ast_tree), model_name) in _generated:\n    return _generated[(id(ast_tree), model_name)]").body[0])
+            return mod
+    return None
